@@ -240,21 +240,27 @@ func zzC09Check(spec *ClientHelloSpec, w *Weights, withALPNForced int) {
 //verif:stub (*math/rand.Rand).Shuffle zzStubShuffleIdentity
 //verif:expect end
 //verif:assume the SHAKE256/HKDF stream is an arbitrary function of (seed, salt, position): equal seed and salt replay equal draws; FlipWeightedCoin follows its corner contract (decided for the real function in C30) and is otherwise a stream bit; Perm and Shuffle are the identity permutation (any permutation satisfies their contract; uniformity is outside the claim); random cipher removal is disabled here (weight 0) and covered by the order lemmas
-//verif:doc generateRandomizedSpec for the three randomized ids with a symbolic seed: the weights that decide the structure of the offer (TLS 1.3, ALPN, PSS, X25519, P-521, padding, first key share, extra key shares, ALPS) are each 0 or 1, or all arbitrary (0.5); the thorough tier mixes 0, 1 and 0.5 per weight; the remaining weights are all 0 or all 1. Every generated spec obeys the C09 consistency rules; weights 0 / 1 force absence / presence unless a TLS 1.3 rule overrides; generating twice from the same ClientHelloID yields structurally equal specs (any use of global randomness or the clock would break equality).
+//verif:doc generateRandomizedSpec for the three randomized ids with a symbolic seed: the weights that decide the structure of the offer (TLS 1.3, ALPN, PSS, X25519, P-521, padding, first key share, extra key shares, ALPS) are each 0 or 1, or all arbitrary (0.5); the thorough tier adds every combination with exactly one weight arbitrary and the others at 0/1; the remaining weights are all 0 or all 1. Every generated spec obeys the C09 consistency rules; weights 0 / 1 force absence / presence unless a TLS 1.3 rule overrides; generating twice from the same ClientHelloID yields structurally equal specs (any use of global randomness or the clock would break equality).
 func zzC09RandomizedSpecConsistentAndReproducible() {
 	zzPrngs, zzPrngStreams = nil, nil
 	var seed PRNGSeed
 	copy(seed[:], verifBytes("seed", 32))
 	other := zzW("other-weights", false)
-	// structural weights: each 0 or 1 ("corners"), or all arbitrary (0.5);
-	// the thorough tier mixes 0, 1 and 0.5 per weight.
-	mixed := verifThorough()
-	allArb := !mixed && verifBool("structural-weights-arbitrary")
+	// structural weights: each 0 or 1 ("corners"), or all arbitrary (0.5); the
+	// thorough tier adds: exactly one weight (each in turn) arbitrary, the others at corners.
+	allArb := verifBool("structural-weights-arbitrary")
+	oneArb := -1
+	if !allArb && verifThorough() && verifBool("one-weight-arbitrary") {
+		oneArb = verifChoice("arbitrary-weight", 9)
+	}
+	swi := 0
 	sw := func(name string) float64 {
-		if allArb {
+		k := swi
+		swi++
+		if allArb || k == oneArb {
 			return 0.5
 		}
-		return zzW(name, mixed)
+		return zzW(name, false)
 	}
 	w := &Weights{
 		Extensions_Append_ALPN:                             sw("w-alpn"),
